@@ -2297,3 +2297,82 @@ func specQosDelArg(e int) *pb.QosCommandDeleteArg {
 //@   ensures C03.qer.del.count: gint("marshalfail") == old[int](gint("marshalfail")) ==> (qer.qosLevel <= 1 ==> glen("bess") == old[int](glen("bess"))+2) && (qer.qosLevel > 1 ==> glen("bess") == old[int](glen("bess")))
 //@   ensures C03.qer.del.app: gint("marshalfail") == old[int](gint("marshalfail")) && qer.qosLevel == ApplicationQos ==> specBessCmd(gentry("bess", old[int](glen("bess"))), AppQerLookup, "delete") && specAppQerKey(specQosDelArg(gentry("bess", old[int](glen("bess")))).Fields, access, qer) && specBessCmd(gentry("bess", old[int](glen("bess"))+1), AppQerLookup, "delete") && specAppQerKey(specQosDelArg(gentry("bess", old[int](glen("bess"))+1)).Fields, core, qer)
 //@   ensures C03.qer.del.sess: gint("marshalfail") == old[int](gint("marshalfail")) && qer.qosLevel == SessionQos ==> specBessCmd(gentry("bess", old[int](glen("bess"))), SessQerLookup, "delete") && specSessQerKey(specQosDelArg(gentry("bess", old[int](glen("bess")))).Fields, access, qer) && specBessCmd(gentry("bess", old[int](glen("bess"))+1), SessQerLookup, "delete") && specSessQerKey(specQosDelArg(gentry("bess", old[int](glen("bess"))+1)).Fields, core, qer)
+
+// clearState (C03: whatever a previous incarnation left behind is cleared at start-up): the four
+// look-up modules receive "clear", in this order, unless marshalling fails.
+//@ func (b *bess) clearState()
+//@   requires b != nil && b.client != nil && !enableGtpuPathMonitoring
+//@   deadreturns 4
+//@   ensures C03.clear.count: gint("marshalfail") == old[int](gint("marshalfail")) ==> glen("bess") == old[int](glen("bess"))+4
+//@   ensures C03.clear.cmds: gint("marshalfail") == old[int](gint("marshalfail")) ==> specBessCmd(gentry("bess", old[int](glen("bess"))), "pdrLookup", "clear") && specBessCmd(gentry("bess", old[int](glen("bess"))+1), "farLookup", "clear") && specBessCmd(gentry("bess", old[int](glen("bess"))+2), AppQerLookup, "clear") && specBessCmd(gentry("bess", old[int](glen("bess"))+3), SessQerLookup, "clear")
+
+// Ghost log "bessop": one entry per encoder goroutine started by SendMsgToUPF (kind 1..6: add/del
+// PDR, add/del FAR, add/del QER; the index of the rule in its list). The goroutine bodies are the
+// closures under contract above; starting them is assumed to run them (go statements are not
+// modelled).
+//@ func (b *bess) addPDR(ctx context.Context, done chan<- bool, p pdr)
+//@   trusted
+//@   appends bessop
+//@   ensures gfield("bessop.kind", gentry("bessop", glen("bessop")-1)) == 1 && gfield("bessop.id", gentry("bessop", glen("bessop")-1)) == uint64(p.pdrID) && gfield("bessop.fseid", gentry("bessop", glen("bessop")-1)) == p.fseID
+//@ func (b *bess) delPDR(ctx context.Context, done chan<- bool, p pdr)
+//@   trusted
+//@   appends bessop
+//@   ensures gfield("bessop.kind", gentry("bessop", glen("bessop")-1)) == 2 && gfield("bessop.id", gentry("bessop", glen("bessop")-1)) == uint64(p.pdrID) && gfield("bessop.fseid", gentry("bessop", glen("bessop")-1)) == p.fseID
+//@ func (b *bess) addFAR(ctx context.Context, done chan<- bool, far far)
+//@   trusted
+//@   appends bessop
+//@   ensures gfield("bessop.kind", gentry("bessop", glen("bessop")-1)) == 3 && gfield("bessop.id", gentry("bessop", glen("bessop")-1)) == uint64(far.farID) && gfield("bessop.fseid", gentry("bessop", glen("bessop")-1)) == far.fseID
+//@ func (b *bess) delFAR(ctx context.Context, done chan<- bool, far far)
+//@   trusted
+//@   appends bessop
+//@   ensures gfield("bessop.kind", gentry("bessop", glen("bessop")-1)) == 4 && gfield("bessop.id", gentry("bessop", glen("bessop")-1)) == uint64(far.farID) && gfield("bessop.fseid", gentry("bessop", glen("bessop")-1)) == far.fseID
+//@ func (b *bess) addQER(ctx context.Context, done chan<- bool, qer qer)
+//@   trusted
+//@   appends bessop
+//@   ensures gfield("bessop.kind", gentry("bessop", glen("bessop")-1)) == 5 && gfield("bessop.id", gentry("bessop", glen("bessop")-1)) == uint64(qer.qerID) && gfield("bessop.fseid", gentry("bessop", glen("bessop")-1)) == qer.fseID
+//@ func (b *bess) delQER(ctx context.Context, done chan<- bool, qer qer)
+//@   trusted
+//@   appends bessop
+//@   ensures gfield("bessop.kind", gentry("bessop", glen("bessop")-1)) == 6 && gfield("bessop.id", gentry("bessop", glen("bessop")-1)) == uint64(qer.qerID) && gfield("bessop.fseid", gentry("bessop", glen("bessop")-1)) == qer.fseID
+
+// specBessOps: entries [n, n+len) of "bessop" are the operation kind applied to the rules, in order.
+func specOpPdrs(n int, kind uint64, pdrs []pdr) bool {
+	return forall(func(m int) bool {
+		return implies(n <= m && m < n+len(pdrs), gfield("bessop.kind", gentry("bessop", m)) == kind && gfield("bessop.id", gentry("bessop", m)) == uint64(at(pdrs, lo(pdrs)+m-n).pdrID) && gfield("bessop.fseid", gentry("bessop", m)) == at(pdrs, lo(pdrs)+m-n).fseID)
+	})
+}
+
+func specOpFars(n int, kind uint64, fars []far) bool {
+	return forall(func(m int) bool {
+		return implies(n <= m && m < n+len(fars), gfield("bessop.kind", gentry("bessop", m)) == kind && gfield("bessop.id", gentry("bessop", m)) == uint64(at(fars, lo(fars)+m-n).farID) && gfield("bessop.fseid", gentry("bessop", m)) == at(fars, lo(fars)+m-n).fseID)
+	})
+}
+
+func specOpQers(n int, kind uint64, qers []qer) bool {
+	return forall(func(m int) bool {
+		return implies(n <= m && m < n+len(qers), gfield("bessop.kind", gentry("bessop", m)) == kind && gfield("bessop.id", gentry("bessop", m)) == uint64(at(qers, lo(qers)+m-n).qerID) && gfield("bessop.fseid", gentry("bessop", m)) == at(qers, lo(qers)+m-n).fseID)
+	})
+}
+
+// SendMsgToUPF on BESS (C03): establishment programs all rules of the session, modification the
+// rules named in the request (updated), deletion deletes the rules it is given - PDRs, then FARs,
+// then QERs, one operation each; an unknown method starts nothing.
+//@ func (b *bess) SendMsgToUPF(method upfMsgType, rules PacketForwardingRules, updated PacketForwardingRules) (cause uint8)
+//@   requires b != nil
+//@   ensures C03.send.cause: cause == ie.CauseRequestAccepted
+//@   ensures C03.send.add: method == upfMsgTypeAdd ==> glen("bessop") == old[int](glen("bessop"))+len(rules.pdrs)+len(rules.fars)+len(rules.qers) && specOpPdrs(old[int](glen("bessop")), 1, rules.pdrs) && specOpFars(old[int](glen("bessop"))+len(rules.pdrs), 3, rules.fars) && specOpQers(old[int](glen("bessop"))+len(rules.pdrs)+len(rules.fars), 5, rules.qers)
+//@   ensures C03.send.mod: method == upfMsgTypeMod ==> glen("bessop") == old[int](glen("bessop"))+len(updated.pdrs)+len(updated.fars)+len(updated.qers) && specOpPdrs(old[int](glen("bessop")), 1, updated.pdrs) && specOpFars(old[int](glen("bessop"))+len(updated.pdrs), 3, updated.fars) && specOpQers(old[int](glen("bessop"))+len(updated.pdrs)+len(updated.fars), 5, updated.qers)
+//@   ensures C03.send.del: method == upfMsgTypeDel ==> glen("bessop") == old[int](glen("bessop"))+len(rules.pdrs)+len(rules.fars)+len(rules.qers) && specOpPdrs(old[int](glen("bessop")), 2, rules.pdrs) && specOpFars(old[int](glen("bessop"))+len(rules.pdrs), 4, rules.fars) && specOpQers(old[int](glen("bessop"))+len(rules.pdrs)+len(rules.fars), 6, rules.qers)
+//@   ensures C03.send.other: method != upfMsgTypeAdd && method != upfMsgTypeMod && method != upfMsgTypeDel ==> glen("bessop") == old[int](glen("bessop"))
+//@   loop 1 invariant C03.send.l1.count: (specValidMethod(method) ==> glen("bessop") == old[int](glen("bessop"))+rangeidx+1) && (!specValidMethod(method) ==> glen("bessop") == old[int](glen("bessop")))
+//@   loop 1 invariant C03.send.l1.ops: specValidMethod(method) ==> forall m int :: old[int](glen("bessop")) <= m && m < glen("bessop") ==> gfield("bessop.kind", gentry("bessop", m)) == 1+specB2U(method == upfMsgTypeDel) && gfield("bessop.id", gentry("bessop", m)) == uint64(at(pdrs, lo(pdrs)+m-old[int](glen("bessop"))).pdrID) && gfield("bessop.fseid", gentry("bessop", m)) == at(pdrs, lo(pdrs)+m-old[int](glen("bessop"))).fseID
+//@   loop 2 invariant C03.send.l2.count: (specValidMethod(method) ==> glen("bessop") == old[int](glen("bessop"))+len(pdrs)+rangeidx+1) && (!specValidMethod(method) ==> glen("bessop") == old[int](glen("bessop")))
+//@   loop 2 invariant C03.send.l2.pdrs: specValidMethod(method) ==> specOpPdrs(old[int](glen("bessop")), 1+specB2U(method == upfMsgTypeDel), pdrs)
+//@   loop 2 invariant C03.send.l2.ops: specValidMethod(method) ==> forall m int :: old[int](glen("bessop"))+len(pdrs) <= m && m < glen("bessop") ==> gfield("bessop.kind", gentry("bessop", m)) == 3+specB2U(method == upfMsgTypeDel) && gfield("bessop.id", gentry("bessop", m)) == uint64(at(fars, lo(fars)+m-old[int](glen("bessop"))-len(pdrs)).farID) && gfield("bessop.fseid", gentry("bessop", m)) == at(fars, lo(fars)+m-old[int](glen("bessop"))-len(pdrs)).fseID
+//@   loop 3 invariant C03.send.l3.count: (specValidMethod(method) ==> glen("bessop") == old[int](glen("bessop"))+len(pdrs)+len(fars)+rangeidx+1) && (!specValidMethod(method) ==> glen("bessop") == old[int](glen("bessop")))
+//@   loop 3 invariant C03.send.l3.pdrs: specValidMethod(method) ==> specOpPdrs(old[int](glen("bessop")), 1+specB2U(method == upfMsgTypeDel), pdrs) && specOpFars(old[int](glen("bessop"))+len(pdrs), 3+specB2U(method == upfMsgTypeDel), fars)
+//@   loop 3 invariant C03.send.l3.ops: specValidMethod(method) ==> forall m int :: old[int](glen("bessop"))+len(pdrs)+len(fars) <= m && m < glen("bessop") ==> gfield("bessop.kind", gentry("bessop", m)) == 5+specB2U(method == upfMsgTypeDel) && gfield("bessop.id", gentry("bessop", m)) == uint64(at(qers, lo(qers)+m-old[int](glen("bessop"))-len(pdrs)-len(fars)).qerID) && gfield("bessop.fseid", gentry("bessop", m)) == at(qers, lo(qers)+m-old[int](glen("bessop"))-len(pdrs)-len(fars)).fseID
+
+func specValidMethod(m upfMsgType) bool {
+	return m == upfMsgTypeAdd || m == upfMsgTypeMod || m == upfMsgTypeDel
+}
